@@ -131,6 +131,8 @@ func genGun(r *rand.Rand, inst int) string {
 	type vars struct{ pre, post []string }
 	prod := map[string]*vars{}
 	var defs []string
+	var allFields [][]string
+	captured := map[string][]string{}
 	for _, n := range names {
 		v := &vars{}
 		prod[n] = v
@@ -272,15 +274,49 @@ func genGun(r *rand.Rand, inst int) string {
 				fields = append(fields, strings.Join(xh, "|"))
 			}
 		}
-		defs = append(defs, strings.Join(fields, ":"))
+		allFields = append(allFields, fields)
+		// the variables this request's extractors capture (j<var>=<key>, h<var>=<Header>…)
+		for _, p := range post {
+			if (p[0] == 'j' || p[0] == 'h') && strings.Contains(p, "=") {
+				captured[n] = append(captured[n], strings.SplitN(p[1:], "=", 2)[0])
+			}
+		}
+	}
+	// chains of captured variables: what a request captured is, most of the time, rendered into the URI of some request
+	// (possibly its own next execution) — so that a wrong captured value reaches the target's log
+	for i, n := range names {
+		if len(captured[n]) == 0 || r.Intn(4) == 0 {
+			continue
+		}
+		t := (i + 1) % len(names) // mostly the request defined next (scenarios often list the requests in this order)
+		if r.Intn(3) == 0 {
+			t = r.Intn(len(names))
+		}
+		ref := "p" + n + "." + captured[n][r.Intn(len(captured[n]))]
+		if allFields[t][3] == "" {
+			allFields[t][3] = ref
+		} else {
+			allFields[t][3] += "|" + ref
+		}
+	}
+	for _, f := range allFields {
+		defs = append(defs, strings.Join(f, ":"))
 	}
 	nsc := 1 + r.Intn(3)
 	ws := genWeights(r, nsc, false)
 	var scs []string
 	for i := 0; i < nsc; i++ {
 		var shoots []string
-		for j, k := 0, 1+r.Intn(4); j < k; j++ {
+		inOrder := i == 0 && r.Intn(2) == 0 // the first scenario often runs every request once, in definition order
+		nItems := 1 + r.Intn(4)
+		if inOrder {
+			nItems = len(names)
+		}
+		for j, k := 0, nItems; j < k; j++ {
 			n := names[r.Intn(len(names))]
+			if inOrder {
+				n = names[j]
+			}
 			switch r.Intn(7) {
 			case 0:
 				shoots = append(shoots, fmt.Sprintf("%s(%d)", n, 1+r.Intn(3)))
